@@ -17,7 +17,7 @@ VARIABLES queue,    \* the queue
 
 vars == <<queue, hist, np>>
 
-DefaultErrs == {[code |-> -113, ext |-> 0], [code |-> 7, ext |-> 0], [code |-> -200, ext |-> 1]}
+DefaultErrs == {[code |-> -113, ext |-> 0], [code |-> 7, ext |-> 0], [code |-> -200, ext |-> 1], [code |-> 0, ext |-> 0]}    \* incl. 0 "No error" pushed like any other
 
 Init == queue = <<>> /\ hist = <<>> /\ np = 0
 
